@@ -98,7 +98,12 @@ func (H) Generate(r *simrt.Rand, tier string) any {
 		s.Timeout = []int64{int64(time.Millisecond), int64(time.Second), int64(time.Minute)}[r.Intn(3)]
 		s.OnTimeout = r.Intn(10) < 7
 	}
-	for i := 0; i < r.Intn(5); i++ {
+	nsub := r.Intn(5)
+	wide := r.Intn(8) == 0
+	if wide {
+		nsub = 4 + r.Intn(6)
+	}
+	for i := 0; i < nsub; i++ {
 		b := r.Intn(5) - 1
 		s.Subs = append(s.Subs, SubSpec{Buf: b, Recv: genRecv(r)})
 	}
@@ -113,6 +118,9 @@ func (H) Generate(r *simrt.Rand, tier string) any {
 			pc := PubCall{Variant: variants[r.Intn(len(variants))], N: 1, Only: -1, Delay: r.Intn(4)}
 			if strings.Contains(pc.Variant, "Slice") {
 				pc.N = r.Intn(4)
+				if wide {
+					pc.N = r.Intn(9)
+				}
 			}
 			if withOnly && r.Intn(2) == 0 {
 				pc.Only = only
